@@ -59,6 +59,8 @@ def make(kind: str, lock: bool):
     if kind == "td":
         td = _nested()
         td.set_non_tensor("nt", "hello")
+        td["emp"] = TensorDict({}, [3])          # an empty nested tensordict (filter_empty_)
+        td["x.y"] = torch.zeros(3)               # a dotted key (unflatten_keys)
         if lock:
             td.lock_()
         return td, td, keep
@@ -295,6 +297,9 @@ def hand_calls(kind: str, subject):
         ("empty", (), {}),
         ("flatten_keys", (), {"inplace": True}), ("unflatten_keys", (), {"inplace": True}),
         ("filter_empty_", (), {}), ("filter_non_tensor_data", (), {}),
+        ("load_state_dict", ("<state_dict>",), {"assign": True}), ("load_state_dict", ("<state_dict>",), {}),
+        ("cat_tensors", (existing, "f") if kind in ("td", "lazy", "sub") else (existing,), {"out_key": "zz", "dim": -1} if kind in ("td", "lazy", "sub") else {}),
+        ("separates", (existing,), {}),
         ("replace", ({"zz": one()},), {}),
         ("apply_", (lambda x: x + 1,), {}), ("apply", (lambda x: x + 1,), {"inplace": True}),
         ("named_apply", (lambda k, x: x + 1,), {"inplace": True}),
@@ -305,6 +310,12 @@ def hand_calls(kind: str, subject):
         ("masked_fill_", (torch.ones(*bs, dtype=torch.bool) if bs else torch.tensor(True), 1.0), {}),
         ("add_", (1.0,), {}), ("mul_", (2.0,), {}),
     ]
+    # in-place value writes that the property promises stay possible under lock (oracle: must return normally on the locked subject)
+    calls += [("set", (existing, one()), {"inplace": True}), ("update", ({existing: one()},), {"inplace": True}),
+              ("set_", (existing, one()), {"__must_ok__": True}), ("update_", ({existing: one()},), {"__must_ok__": True}),
+              ("fill_", (existing, 3.0), {"__must_ok__": True}), ("zero_", (), {"__must_ok__": True}),
+              ("apply_", (lambda x: x + 1,), {"__must_ok__": True}), ("apply", (lambda x: x + 1,), {"inplace": True, "__must_ok__": True})]
+    calls = [(n, a, ({**k, "__must_ok__": True} if (n in ("set", "update") and k.get("inplace") and (a and (a[0] == existing or (isinstance(a[0], dict) and existing in a[0])))) else k)) for n, a, k in calls]
     if nested_existing:
         calls += [("set", (nested_existing[:-1] + ("zz",), torch.ones(*bs, 2) if kind != "tc" else one()), {}),
                   ("del_", (nested_existing,), {}), ("exclude", (nested_existing,), {"inplace": True}),
@@ -344,6 +355,8 @@ def invoke(subject, name, args, kwargs, kind, limit=3.0):
     a = list(args)
     # placeholders
     for i, x in enumerate(a):
+        if isinstance(x, str) and x == "<state_dict>":
+            a[i] = make(kind, False)[0].state_dict()
         if x is None and name in ("copy_", "append", "insert"):
             a[i] = _like(subject, kind) if name == "copy_" else (make(kind, False)[0].tensordicts[0] if hasattr(subject, "tensordicts") else _like(subject, kind))
     try:
